@@ -10,6 +10,7 @@ directory.  Reference model: the in-memory data set.
 import json
 import os
 import shutil
+import random
 import struct
 import tempfile
 from fractions import Fraction
@@ -119,6 +120,10 @@ def gen_case(rng, arm, tier, k=0):
             ops.append(["subgraph", rng.choice(("txt", "csv", "json"))])
         elif arm == "mixed" and r < 0.44:
             ops.append(["parse_gap", rng.randint(1, 3)])
+        elif arm == "mixed" and r < 0.455:
+            # label columns whose distinct values are not exactly 0..K-1 although their number may
+            # equal max+1 (negative, fractional, doubled): parse_loader must reject every one
+            ops.append(["parse_odd", rng.randint(0, 5), rng.randint(0, 10**6)])
         elif arm == "mixed" and r < 0.47:
             # fault: a binary file cut short in its last record - converting it must fail, and must
             # not affect any later conversion
@@ -145,7 +150,10 @@ def gen_case(rng, arm, tier, k=0):
                 splits.append(op)
                 # the caller may go on to modify what it was given (sort / overwrite in place)
                 ops.append(op + [True] if rng.random() < 0.35 else op)
-        elif r < 0.72:
+        elif r < 0.68:
+            # fault: a split refused for mismatched lengths (caught by the caller), then further use
+            ops.append(["split_badsize", rng.choice(("split", "split_with_index")), rng.choice((-1, 1, 2)), rng.randint(0, 6)])
+        elif r < 0.74:
             ops.append(["merge", rng.choice((0.0, 0.25, 0.5, 1.0, round(rng.random(), 2))), rng.randint(0, 6)])
         elif r < 0.88:
             ops.append(["consume", rng.randint(1, 50)])
@@ -425,6 +433,58 @@ def run_case(case):
                 bump(out.probes, "gap_labels_rejected")
                 log.add("parse_gap")
                 norm.append(("parse_gap", op[1]))
+            elif kop == "parse_odd":
+                out.steps += 1
+                r2 = random.Random(op[2])
+                mode = op[1]
+                lab = Y.astype(np.float64).copy()
+                if mode == 0:
+                    # 0..K-1 complete plus fractional values in between
+                    for _ in range(r2.randint(1, 3)):
+                        lab[r2.randrange(n)] = r2.randrange(max(1, K)) + r2.choice((0.5, 0.25, 0.75))
+                elif mode == 1:
+                    # as many distinct values as max+1, one of them negative: {-1, 0, 2}-like
+                    lab = np.where(lab == K - 1, lab, lab - 1) if K >= 2 else lab - 1
+                elif mode == 2:
+                    # as many distinct values as max+1, one of them fractional: {0, 0.5, 2}-like
+                    lab = np.where(lab == K - 1, K, lab)
+                    lab[r2.randrange(n)] = r2.randrange(K + 1) + 0.5
+                elif mode == 3:
+                    lab = lab * 2  # 0, 2, 4, ..
+                    if K == 1:
+                        lab = lab + 1
+                elif mode == 4:
+                    lab = -lab - (K == 1)  # 0, -1, -2, ..
+                else:
+                    lab[r2.randrange(n)] = float("nan")
+                distinct = sorted(set(float(v) for v in lab if v == v)) + (["nan"] if np.isnan(lab).any() else [])
+                if distinct == [float(i) for i in range(len(distinct))]:
+                    continue  # happens to be a legal label set (tiny n): no claim
+                odd = np.hstack([np.arange(n).reshape(n, 1), lab.reshape(n, 1), X]).astype(np.float64)
+                try:
+                    res = B.parser.parse_loader(odd)
+                    raised = False
+                except Exception:  # noqa: BLE001 - any exception is a rejection
+                    raised = True
+                if not raised:
+                    raise Stop(violation("gap-labels-accepted", "parse_loader accepted the label column with distinct values %s (not 0..K-1) and returned %s" % (distinct[:8], type(res).__name__), mode=mode))
+                bump(out.probes, "odd_label_set_rejected_mode_%d" % mode)
+                log.add("parse_odd", mode)
+                norm.append(("parse_odd", mode))
+            elif kop == "split_badsize":
+                out.steps += 1
+                fn = B.splitter.split if op[1] == "split" else B.splitter.split_with_index
+                Yb = np.arange(n + op[2]) % max(1, K) if n + op[2] >= 0 else Y.copy()
+                if len(Yb) == n:
+                    continue
+                try:
+                    fn(caller_x(), Yb, 0.5, op[3])
+                    bump(out.probes, "split_with_mismatched_lengths_not_refused")
+                except Exception:  # noqa: BLE001 - the expected outcome of the fault
+                    bump(out.faults, "split_refused_for_mismatched_lengths")
+                perturb += 1
+                log.add("split_badsize", op[1], op[2])
+                norm.append(("split_badsize", op[1], op[2]))
             elif kop in ("split", "split_with_index"):
                 out.steps += 1
                 pct, seed = op[1], op[2]
